@@ -347,7 +347,7 @@ def _sinks():
 @driver("Client", ["Client"])
 def _client():
     def gen(rng):
-        to = rng.choice([None, lat(rng, zero_p=0.1, hi=0.1)])
+        to = rng.choice([None, lat(rng, zero_p=0.3, hi=0.1)])
         rp = gen_retry(rng)
         c = flow_cfg(rng, marks=[to] + retry_marks(rp))
         c.update(timeout=to, retry=rp, svc=svc_times(rng, slow=to), real_server=rng.random() < 0.4)
@@ -597,7 +597,7 @@ def _rl():
     def gen(rng):
         p = gen_rl_policy(rng)
         c = flow_cfg(rng, marks=rl_marks(p), span=rng.choice([0.05, 0.3, 1.0]))
-        c.update(policy=p, qcap=rng.choice([0, 1, 5, 1000]), null_first=rng.random() < 0.3)
+        c.update(policy=p, qcap=rng.choice([0, 1, 5, 1000]), null_first=rng.random() < 0.6)
         return c
 
     def build(z, c):
@@ -1015,13 +1015,15 @@ def _shifted():
             t = b
         st = lat(rng, hi=0.1)
         c = flow_cfg(rng, marks=[st] + [x for s in shifts for x in s[:2]], span=3.0)
-        c.update(shifts=shifts, dcap=rng.choice([0, 1]), st=st, policy=rng.choice([None, gen_policy(rng)]))
+        c.update(shifts=shifts, dcap=rng.choice([0, 1]), st=st, policy=rng.choice([None, gen_policy(rng)]), places=places)
         return c
 
     def build(z, c):
         sink = z.sink()
         sched = ShiftSchedule([Shift(check_num(a), check_num(b), int(k)) for a, b, k in c["shifts"]],
                               default_capacity=int(c["dcap"]))
+        if c.get("places") == 0:
+            z.probe("avoid.ShiftedServer.whole_second_boundaries")   # avoidance class of the recorded _ShiftChange spin
         s = z.add(ShiftedServer("shifted", schedule=sched, service_time=check_num(c["st"]), downstream=sink,
                                 policy=policy_of(c["policy"]) if c.get("policy") else None))
         feed(z, c, s)
